@@ -97,7 +97,7 @@ def coq_expr(e):
         return f'(ENot {coq_expr(e[1])})'
     if t == 'len':
         return f'(ELen {coq_expr(e[1])})'
-    if t == 'walrus':
+    if t in ('walrus', 'walrus_ns'):
         return f'(EWalrus {coq_str(e[1])} {coq_expr(e[2])})'
     if t == 'lambdacall':
         return f'(ELambdaCall {coq_str(e[1])} {coq_expr(e[2])} {coq_expr(e[3])})'
@@ -137,6 +137,8 @@ def render_expr(e):
         return f'len({render_expr(e[1])})'
     if t == 'walrus':
         return f'({e[1]} := {render_expr(e[2])})'
+    if t == 'walrus_ns':
+        return f'({e[1]}:={render_expr(e[2])})'        # the same, written without spaces
     if t == 'lambdacall':
         return f'(lambda {e[1]}: {render_expr(e[2])})({render_expr(e[3])})'
     if t == 'listcomp':
